@@ -1,4 +1,5 @@
 import Revm.Proofs.EvmInstLifeTop
+import Revm.Proofs.EvmInstSdWitness
 /-! C01Inst — the whole-transaction model `Revm.Model.Evm.transact` (C01) IS AN INSTANCE of the abstract machines about
 which C28–C31 are proved, so those properties hold of `Evm.transact` runs.
 
@@ -189,5 +190,143 @@ example : EvmOps ([{ env := sampleEnv, spec := 17, fuel := 10 }, { env := sample
   rcases hop with rfl | rfl
   · exact ⟨17, rfl⟩
   · exact ⟨7, rfl⟩
+
+/-! ## 3. C29 / C30 — inspector hooks and SELFDESTRUCT notifications (`Proofs/EvmInstHooks*.lean`, `EvmInstSd*.lean`)
+
+`transactTr` is `Evm.transact` returning, beside the very same value (`evm_traced_value`), the SCRIPT of its frame loop:
+for every executed instruction what the inspector's instruction wrappers see (LOG0..4 with the journal's log ids before /
+after; SELFDESTRUCT with the wrapper's own note, computed from the journal entries as `SelfdestructNotify.wrapped` does),
+for every `execute_frame` that returns the frame request (answered by a frame or at once by a result: depth limit,
+precompile, failed transfer, collision, empty code) or the return. `runTx b first (scriptOf evs)` is the handler-register
+machine of C29 run on that script: so the action sequence of `Evm.runLoop` IS an oracle behaviour of that machine, and it
+ends `finished` (the machine's frame list is the kind list of the concrete call stack throughout).
+
+Where abstract and concrete model do not line up (reported):
+* `SelfdestructNotify.selfdestructInsn` prices the instruction with the JOURNAL's spec, the interpreter with its own
+  `spec` field; it subtracts gas in `Nat`, the interpreter's meter is a `u64`; it has no refund counter; its failing
+  database (`dbFails`) has no concrete counterpart. `sd_refines` is the refinement under `s.spec = w.js.spec` and
+  `gas.remaining < 2^64`; the cost tables agree (`selfdestructCost_agree`) and `% 2^160` is `addrOfWord`.
+* C30's assumption "the executing contract is in the journal" is NOT a consequence of `Journal.selfdestruct` succeeding
+  (an unloaded contract naming itself is loaded from the database), and it is not derived from the run here
+  (`FullStatementContractLoaded`); the whole-run theorem uses the account `JournaledState::selfdestruct` itself reads.
+* concrete runs never produce `Next.fatal`, `insertErr`, `HandlerRes.err`, an inspector outcome or a halting `step`:
+  only finished runs (and only observing inspectors) are instances. -/
+
+section Hooks
+open Revm.Model.InspectorHooks (Stacks Spawn Ev runTx)
+open Revm.Spec.InspectorHooks (Balanced sdsOf logsOf stepsOf)
+open Revm.Proofs.EvmInstHooks (LEv transactTr scriptOf insnsOf)
+open Revm.Proofs.EvmInstSd (completedSelfdestructs appendedLogs)
+
+/-- the traced transaction computes `Evm.transact` -/
+theorem evm_traced_value (fuel : Nat) (w : World) (e : Env) (spec : Nat) :
+    (transactTr fuel w e spec).1 = Evm.transact fuel w e spec :=
+  Revm.Proofs.EvmInstHooks.transactWithTr_fst journalOps fuel w e spec
+
+/-- C29 INSTANCE. The action sequence of every completed `Evm.transact` run is a FINISHED behaviour of the inspector
+handler-register machine, for every content `b` of the three input stacks; hence its callback word is well bracketed,
+indeed ONE bracket: the transaction's own `call` / `create` (inputs number 0) first, its `*_end` with the same inputs
+last, everything in between balanced (every nested request closed by one `*_end` of its kind carrying its inputs, last
+opened first closed — requests answered at once included). -/
+theorem evm_hooks_balanced (b : Stacks) (fuel : Nat) (w : World) (e : Env) (spec : Nat) (o : Outcome) (w' : World)
+    (first : Spawn) (evs : List LEv) (h : transactTr fuel w e spec = (.ok (o, w'), some (first, evs))) :
+    (runTx b first (scriptOf evs)).1 = .finished ∧
+    Balanced (runTx b first (scriptOf evs)).2.word ∧
+    first.i = 0 ∧
+    ∃ u oo, (runTx b first (scriptOf evs)).2.word = Ev.opn first.k 0 :: (u ++ [Ev.cls first.k 0 oo]) ∧ Balanced u :=
+  Revm.Proofs.EvmInstHooks.evm_hooks_balanced b fuel w e spec o w' first evs h
+
+/-- the three input stacks are, after a completed transaction, what they were before it -/
+theorem evm_hooks_stacks_restored (b : Stacks) (fuel : Nat) (w : World) (e : Env) (spec : Nat) (o : Outcome)
+    (w' : World) (first : Spawn) (evs : List LEv) (h : transactTr fuel w e spec = (.ok (o, w'), some (first, evs))) :
+    (runTx b first (scriptOf evs)).2.stk = b :=
+  Revm.Proofs.EvmInstHooks.evm_hooks_stacks_restored b fuel w e spec o w' first evs h
+
+/-- every executed instruction is bracketed by `step · step_end`, and these are all such callbacks -/
+theorem evm_hooks_steps (b : Stacks) (fuel : Nat) (w : World) (e : Env) (spec : Nat) (o : Outcome)
+    (w' : World) (first : Spawn) (evs : List LEv) (h : transactTr fuel w e spec = (.ok (o, w'), some (first, evs))) :
+    Revm.Spec.InspectorHooks.stepsPaired (runTx b first (scriptOf evs)).2.word = true ∧
+    stepsOf (runTx b first (scriptOf evs)).2.word = (insnsOf evs).flatMap (fun _ => [Ev.step, Ev.stepEnd]) :=
+  Revm.Proofs.EvmInstHooks.evm_hooks_steps b fuel w e spec o w' first evs h
+
+/-- each emitted log is reported once: the `log` callbacks are, in order, exactly the ids of the records appended by
+the LOG instructions that reached the host -/
+theorem evm_hooks_logs (b : Stacks) (fuel : Nat) (w : World) (e : Env) (spec : Nat) (o : Outcome)
+    (w' : World) (first : Spawn) (evs : List LEv) (h : transactTr fuel w e spec = (.ok (o, w'), some (first, evs))) :
+    logsOf (runTx b first (scriptOf evs)).2.word = appendedLogs evs :=
+  Revm.Proofs.EvmInstSd.evm_hooks_logs b fuel w e spec o w' first evs h
+
+/-- C30 INSTANCE. In every completed `Evm.transact` run the inspector's `selfdestruct` callbacks are, in order, exactly
+one per SELFDESTRUCT instruction that completed (`Interp.selfdestructI` + `EvmHost.answer (.selfdestruct …)` ending
+`.halt .SelfDestruct`), naming the executing contract, the beneficiary popped from the stack and the balance that moved
+(`completedSelfdestructs`, computed from the state BEFORE the instruction, see `evm_completed_selfdestruct_is`); no
+other instruction or frame event makes one. -/
+theorem evm_selfdestruct_notified_once (b : Stacks) (fuel : Nat) (w : World) (e : Env) (spec : Nat) (o : Outcome)
+    (w' : World) (first : Spawn) (evs : List LEv) (h : transactTr fuel w e spec = (.ok (o, w'), some (first, evs))) :
+    sdsOf (runTx b first (scriptOf evs)).2.word = completedSelfdestructs evs :=
+  Revm.Proofs.EvmInstSd.evm_selfdestruct_notified_once b fuel w e spec o w' first evs h
+
+/-- what an entry of `completedSelfdestructs` is -/
+theorem evm_completed_selfdestruct_is {s : Interp.IState} {w : World} {d : Interp.Done} {x : Nat × Nat × Nat}
+    (h : Revm.Proofs.EvmInstHooks.sdTruth s w d = some x) :
+    ∃ out s' rest t0 acc, d = .halt .SelfDestruct out s' ∧ s.stack = rest ++ [t0] ∧
+      Revm.Proofs.EvmInstHooks.contractAcct w s.target (Interp.addrOfWord t0) = some acc ∧
+      x = (s.target, Interp.addrOfWord t0,
+        Revm.Proofs.SelfdestructNotify.movedValue acc w.js.spec s.target (Interp.addrOfWord t0)) :=
+  Revm.Proofs.EvmInstSd.sdTruth_some h
+
+/-- the step lemma: a concrete SELFDESTRUCT that completes is `Journal.selfdestruct` on (contract, popped beneficiary),
+and the inspector wrapper's note (newest `AccountDestroyed` / `BalanceTransfer` among the new journal entries, else
+`(c, c, 0)`) is `(contract, beneficiary, balance moved)` -/
+theorem evm_selfdestruct_step {he : HostEnv} {s : Interp.IState} {w w' : World} {d : Interp.Done} {out : List Nat}
+    {s' : Interp.IState} (hcode : s.code[s.pc]? = some 0xff) (hr : Revm.Proofs.EvmInstSd.Resolved he s w d w')
+    (hd : d = .halt .SelfDestruct out s') :
+    s.isStatic = false ∧ ∃ rest t0 r acc1, s.stack = rest ++ [t0] ∧
+      Journal.selfdestruct w.db w.js s.target (Interp.addrOfWord t0) = some (w'.js, r) ∧
+      Revm.Proofs.EvmInstHooks.contractAcct w s.target (Interp.addrOfWord t0) = some acc1 ∧
+      Revm.Proofs.EvmInstHooks.sdNote s w.js w'.js d =
+        some (s.target, Interp.addrOfWord t0,
+          Revm.Proofs.SelfdestructNotify.movedValue acc1 w.js.spec s.target (Interp.addrOfWord t0)) :=
+  Revm.Proofs.EvmInstSd.sd_step_completed hcode hr hd
+
+/-- no notification for a SELFDESTRUCT that does not complete (static, underflow, out of gas after the state change) -/
+theorem evm_selfdestruct_no_spurious (s : Interp.IState) (js js' : Journal.JState) (d : Interp.Done)
+    (h : ∀ out s', d ≠ .halt .SelfDestruct out s') : Revm.Proofs.EvmInstHooks.sdNote s js js' d = none :=
+  Revm.Proofs.EvmInstSd.sd_no_spurious s js js' d h
+
+/-- the concrete SELFDESTRUCT refines `SelfdestructNotify.selfdestructInsn` (C30's instruction model) when the
+interpreter's spec is the journal's and the meter is a `u64` -/
+theorem evm_selfdestruct_refines {he : HostEnv} {s : Interp.IState} {w w' : World} {d : Interp.Done}
+    (hcode : s.code[s.pc]? = some 0xff) (hr : Revm.Proofs.EvmInstSd.Resolved he s w d w')
+    (hspec : s.spec = w.js.spec) (hgas : s.gas.remaining < U64) :
+    ∃ r out s', d = .halt r out s' ∧
+      SelfdestructNotify.selfdestructInsn w.db false (Revm.Proofs.EvmInstSd.absI s) w.js =
+        some (Revm.Proofs.EvmInstSd.absI s' (Revm.Proofs.EvmInstSd.iresOf r), w'.js) :=
+  Revm.Proofs.EvmInstSd.sd_refines hcode hr hspec hgas
+
+/-- "the balance that left the contract" needs C30's own assumption that the executing contract is in the journal
+when the instruction starts; not derived from the run (`FullStatementContractLoaded` says what is missing) -/
+theorem evm_selfdestruct_balance_left_partial {he : HostEnv} {s : Interp.IState} {w w' : World} {d : Interp.Done}
+    {acc : Journal.Acct} {x : Nat × Nat × Nat} (hcode : s.code[s.pc]? = some 0xff)
+    (hr : Revm.Proofs.EvmInstSd.Resolved he s w d w') (hloaded : w.js.state s.target = some acc)
+    (hx : Revm.Proofs.EvmInstHooks.sdTruth s w d = some x) :
+    x.1 = s.target ∧
+    x.2.2 = Revm.Proofs.SelfdestructNotify.movedValue acc w.js.spec s.target x.2.1 ∧
+    SelfdestructNotify.balanceOf w.js s.target = SelfdestructNotify.balanceOf w'.js s.target + x.2.2 :=
+  Revm.Proofs.EvmInstSd.evm_selfdestruct_balance_left_partial hcode hr hloaded hx
+
+/-- the missing run invariant, kept visible -/
+def FullStatementContractLoaded : Prop := Revm.Proofs.EvmInstSd.FullStatementContractLoaded
+
+/-- non-vacuity: a kernel-evaluated run (a call to `0xbb`, which CALLs `0xcc`, which runs LOG0 and SELFDESTRUCTs to the
+fresh account `0xdd`, 7 wei move) satisfies the hypothesis of the theorems above; its word has one `log 0` and one
+`selfdestruct 0xcc 0xdd 7` -/
+example : ∃ o w' first evs,
+    transactTr 100 Revm.Proofs.EvmInstSd.witnessWorld Revm.Proofs.EvmInstSd.witnessEnv 17 =
+      (.ok (o, w'), some (first, evs)) ∧
+    completedSelfdestructs evs = [(0xcc, 0xdd, 7)] ∧ appendedLogs evs = [0] :=
+  Revm.Proofs.EvmInstSd.witness_hypothesis
+
+end Hooks
 
 end Revm.Props.C01Inst
